@@ -8,7 +8,6 @@ tvars == <<svars, l>>
 R == Rec[l]
 IsEvent(e) == l <= Len(Rec) /\ Rec[l].ev = e /\ l' = l + 1
 Stutter == UNCHANGED svars
-SeqSet(s) == {s[k] : k \in 1..Len(s)}
 
 TraceInit == l = 1 /\ SInit
 
@@ -18,7 +17,10 @@ TOpen ==
 
 TSend ==
   /\ IsEvent("send")
-  /\ SSend(R.node, R.pid, R.hash, R.amt, Len(R.parts), ~R.auto, R.res)
+  \* the first-hop channel of every part of the route the user chose (0: routed by the payer's router, not known)
+  /\ SSend(R.node, R.pid, R.hash, R.amt,
+           [k \in 1..Len(R.parts) |-> IF Len(R.parts[k].path) > 0 THEN R.parts[k].path[1] ELSE 0],
+           ~R.auto, R.evs_handled, R.res)
 
 TMsg ==
   /\ IsEvent("msg")
@@ -43,6 +45,10 @@ TEvent ==
        [] R.kind = "PaymentPathFailed" -> SEvPathFailed(R.node, R.pid, R.hash, R.blamed, R.initial, R.path)
        [] OTHER -> Stutter
 
+\* the payer's persister returned InProgress for a monitor write / the user reports the write complete
+TPersist == IsEvent("persist") /\ R.status = "inprogress" /\ SPersistInProgress(R.node, R.chan, R.id)
+TComplete == IsEvent("complete") /\ SPersistComplete(R.node, R.chan, R.id)
+
 TSave == IsEvent("save") /\ SSave(R.node)
 TRestart == IsEvent("restart") /\ SRestart(R.node, R.stale)
 
@@ -56,6 +62,7 @@ TRecent ==
 TQuiet ==
   /\ IsEvent("quiet")
   /\ R.queued = 0
+  /\ ((R.writes = 0) <=> (wip = {}))    \* quiet: no monitor write is in flight (every `persist` has met its `complete`)
   /\ IF ~R.closed
      THEN SQuietOK([n \in DOMAIN initBal |-> R.nodes[n + 1].bal],
                    {n \in DOMAIN initBal : R.nodes[n + 1].htlcs = 0 /\ ~R.nodes[n + 1].floor})
@@ -64,10 +71,10 @@ TQuiet ==
 
 TOther ==
   /\ l <= Len(Rec)
-  /\ Rec[l].ev \in {"reg", "failback", "forward", "tick", "block", "disconnect", "reconnect", "handled", "abandon", "broadcast", "settle_chain", "settled", "mine_skipped"}
+  /\ Rec[l].ev \in {"reg", "failback", "forward", "tick", "block", "disconnect", "reconnect", "handled", "abandon", "broadcast", "settle_chain", "settled", "mine_skipped", "persist_mode"}
   /\ l' = l + 1 /\ Stutter
 
-TraceNext == TOpen \/ TSend \/ TMsg \/ TDeliver \/ TClaim \/ TEvent \/ TSave \/ TRestart \/ TRecent \/ TChain \/ TQuiet \/ TOther
+TraceNext == TOpen \/ TSend \/ TPersist \/ TComplete \/ TMsg \/ TDeliver \/ TClaim \/ TEvent \/ TSave \/ TRestart \/ TRecent \/ TChain \/ TQuiet \/ TOther
 
 TraceSpec == TraceInit /\ [][TraceNext]_tvars
 
